@@ -320,6 +320,17 @@ class Units:
                     q_ = op_place(t["args"][1])
                     if q_ is not None and q_["l"] in absoff:
                         self._v("abs-offset-to-relative-api", decl.split("::")[-1], t.get("line"), "an offset built from the absolute position %s is passed to %s on a receiver of type %s, which reads offsets relative to its own begin" % (absoff[q_["l"]], decl.split("::")[-1], at0[:50]))
+        # an absolute position handed to the codepoint->byte conversion of a *selection*, which takes positions relative to the selection
+        for blk in b.blocks:
+            if blk.get("cleanup"):
+                continue
+            t = blk["t"]
+            if t["t"] == "call" and t.get("args") and len(t["args"]) >= 2:
+                decl, res, info = callee_of(t)
+                at0 = (t.get("at") or [""])[0]
+                if decl and re.search(r"::utf8byte$", decl) and re.search(r"TextSelection", at0) and not re.search(r"TextResource", at0):
+                    if self.abs_op(t["args"][1]):
+                        self._v("abs-position-to-relative-api", "utf8byte", t.get("line"), "the absolute position %s is passed to utf8byte on a receiver of type %s, which takes positions relative to the selection (and makes them absolute itself): the selection's begin is applied twice" % (b.key_of_operand(t["args"][1])[:60], at0[:50]))
         for blk in b.blocks:
             if blk.get("cleanup"):
                 continue
